@@ -151,7 +151,7 @@ func hashFromString(s string, h hash.Hash, seed []byte) (int, error) {
 	sum := h.Sum(nil)
 	reader := bytes.NewReader(sum)
 	var result uint32
-	err := binary.Read(reader, binary.NativeEndian, &result)
+	err := binary.Read(reader, binary.LittleEndian, &result)
 	if err != nil {
 		return 0, err
 	}
